@@ -121,6 +121,71 @@ username user1@example.com attributes
  service-type remote-access
  vpn-idle-timeout 60
 `),
+		// webvpn exists on both sides, one rule is new, and a group-policy of a user changes just before:
+		// `exit` is needed between the attributes mode and the top-level webvpn
+		mk("webvpn-rule-after-username", `
+crypto ca certificate map ca-map-1-DRC-0 10
+ subject-name attr ea co @sub1.example.com
+crypto ca certificate map ca-map-2-DRC-0 20
+ subject-name attr ea co @sub2.example.com
+tunnel-group VPN-tunnel-1-DRC-0 type remote-access
+tunnel-group VPN-tunnel-2-DRC-0 type remote-access
+tunnel-group-map ca-map-1-DRC-0 10 VPN-tunnel-1-DRC-0
+tunnel-group-map ca-map-2-DRC-0 20 VPN-tunnel-2-DRC-0
+webvpn
+ certificate-group-map ca-map-1-DRC-0 10 VPN-tunnel-1-DRC-0
+username user1@example.com nopassword
+username user1@example.com attributes
+ service-type remote-access
+`, `
+crypto ca certificate map ca-map-1 10
+ subject-name attr ea co @sub1.example.com
+crypto ca certificate map ca-map-2 20
+ subject-name attr ea co @sub2.example.com
+tunnel-group VPN-tunnel-1 type remote-access
+tunnel-group VPN-tunnel-2 type remote-access
+tunnel-group-map ca-map-1 10 VPN-tunnel-1
+tunnel-group-map ca-map-2 20 VPN-tunnel-2
+webvpn
+ certificate-group-map ca-map-1 10 VPN-tunnel-1
+ certificate-group-map ca-map-2 20 VPN-tunnel-2
+username user1@example.com nopassword
+username user1@example.com attributes
+ service-type remote-access
+ vpn-idle-timeout 60
+`),
+		// the target has no VPN part at all: everything is removed in an order the device accepts
+		mk("everything-removed", `
+access-list vpn-filter-DRC-0 extended permit ip host 10.3.4.1 10.1.1.0 255.255.255.0
+ip local pool pool1-DRC-0 10.3.4.8-10.3.4.15 mask 255.255.255.248
+group-policy VPN-group-1-DRC-0 internal
+group-policy VPN-group-1-DRC-0 attributes
+ address-pools value pool1-DRC-0
+ vpn-filter value vpn-filter-DRC-0
+crypto ca certificate map ca-map-1-DRC-0 10
+ subject-name attr ea co @sub1.example.com
+tunnel-group VPN-tunnel-1-DRC-0 type remote-access
+tunnel-group VPN-tunnel-1-DRC-0 general-attributes
+ default-group-policy VPN-group-1-DRC-0
+tunnel-group-map ca-map-1-DRC-0 10 VPN-tunnel-1-DRC-0
+webvpn
+ certificate-group-map ca-map-1-DRC-0 10 VPN-tunnel-1-DRC-0
+username user1@example.com nopassword
+username user1@example.com attributes
+ vpn-group-policy VPN-group-1-DRC-0
+crypto ipsec ikev1 transform-set Trans1-DRC-0 esp-3des esp-md5-hmac
+access-list crypto-outside-1-DRC-0 extended permit ip 10.1.1.0 255.255.255.0 10.99.1.0 255.255.255.0
+crypto map crypto-outside 1 match address crypto-outside-1-DRC-0
+crypto map crypto-outside 1 set peer 10.0.0.1
+crypto map crypto-outside 1 set ikev1 transform-set Trans1-DRC-0
+crypto map crypto-outside interface outside
+tunnel-group 10.0.0.1 type ipsec-l2l
+tunnel-group 10.0.0.1 ipsec-attributes
+ peer-id-validate nocheck
+`, `
+access-list outside_in extended deny ip any4 any4
+access-group outside_in in interface outside
+`),
 	}
 }
 
